@@ -71,11 +71,16 @@ def save_file(
     Path(file_path).parent.mkdir(parents=True, exist_ok=True)
     if 'b' in mode or EOL not in ('\r\n', '\n', '\r'):
         mode = f"{mode[0]}b{mode[2:]}"
+        # Text is encoded piece by piece. The signature a codec puts in front of its output (the BOM of utf-8-sig,
+        # utf-16, utf-32) is taken off every piece and written once: in front of the first piece, if the file has
+        # no content yet - as open() does in text mode. Bytes are stored as they are.
+        signature = b'' if isinstance(output_buffer, (bytes, bytearray)) else ''.encode(encoding)
         if isinstance(output_buffer, str):
-            output_buffer = output_buffer.replace('\n', EOL).encode(encoding)
+            output_buffer = output_buffer.replace('\n', EOL).encode(encoding)[len(signature):]
         if isinstance(EOL, str):
-            EOL = EOL.encode(encoding)
+            EOL = EOL.encode(encoding)[len(signature):]
         out_filehandler = open(file_path, mode)
+        pending = b'' if out_filehandler.seekable() and out_filehandler.tell() else signature
     else:
         out_filehandler = open(file_path, mode, encoding=encoding, newline=EOL)
         EOL = '\n'
@@ -84,7 +89,8 @@ def save_file(
         for line in output_buffer:
             if 'b' in mode:
                 if not isinstance(line, (bytes, bytearray)):
-                    line = str(line).encode(encoding)
+                    line = str(line).encode(encoding)[len(signature):]
+                line, pending = pending + line, b''
             else:
                 if isinstance(line, (bytes, bytearray)):
                     line = line.decode(encoding)
@@ -93,6 +99,8 @@ def save_file(
             out_filehandler.write(line)
             out_filehandler.write(EOL)
     else:
+        if 'b' in mode:
+            output_buffer = pending + output_buffer
         out_filehandler.write(output_buffer)
     out_filehandler.close()
 
